@@ -4,9 +4,10 @@ import SleapVerif.Model.Pipelines
 Driver for C18 (runs the model at `R := Rat`).
 
 `sample <fw> <mt> <isRgb> <maxH> <maxW> <cfgMaxH|-1> <cfgMaxW|-1> <scale> <maxStride> <cropH> <cropW>
-        <anchor|-1> <maxInst> <alias> <cmSigma> <cmStride> <pafSigma> <pafStride> <edges: n (u v)*>
+        <anchor|-1> <maxInst> <alias> <singleOne> <cmSigma> <cmStride> <pafSigma> <pafStride> <edges: n (u v)*>
         <h> <w> <c> <k> <insts: n (m (x y)*)*>`
   → `ok img=<sexpr>;shape=c h w;n=<num>;rank=<r>;inst=<ll>;cen=<l>;bbox=<l>;eff=<q> <q>;tgt=<targets>`
+`count <fw> <mt> <insts>` → `ok <n>` | `raise` (samples a framework yields for one labelled frame).
 `dp <block> …` → the block model's output in the same vocabulary; `dp defaults` → the table.
 -/
 open SleapVerif SleapVerif.Proto SleapVerif.Pipelines
@@ -70,13 +71,13 @@ def sampleLine : P String := do
   let fw ← tok; let mt ← tok
   let isRgb ← bool; let maxH ← nat; let maxW ← nat; let cH ← onat; let cW ← onat
   let scale ← rat; let ms ← nat; let cropH ← nat; let cropW ← nat; let anchor ← onat
-  let maxInst ← nat; let alias ← bool
+  let maxInst ← nat; let alias ← bool; let singleOne ← bool
   let cmS ← rat; let cmSt ← nat; let pS ← rat; let pSt ← nat; let ed ← edges
   let h ← nat; let w ← nat; let c ← nat; let k ← nat; let ii ← insts
   match fwOf fw, mtOf mt with
   | some fw, some mt =>
     let cfg : Cfg Rat := { mt, isRgb, maxH, maxW, cfgMaxH := cH, cfgMaxW := cW, scale, maxStride := ms,
-                           cropH, cropW, anchor, maxInstances := maxInst, aliasing := alias }
+                           cropH, cropW, anchor, maxInstances := maxInst, aliasing := alias, singleOne }
     let fr : Frame Rat := { h, w, c, insts := ii }
     let hd : Heads Rat := { cmSigma := cmS, cmStride := cmSt, pafSigma := pS, pafStride := pSt, edges := ed }
     let s := sampleOf numRat fw cfg fr k
@@ -132,10 +133,20 @@ def dpLine : P String := do
       d.name ++ " " ++ " ".intercalate (d.params.map fun p => s!"{p.1}={o p.2.1}/{o p.2.2}")))
   | _ => failure
 
+def countLine : P String := do
+  let fw ← tok; let mt ← tok; let ii ← insts
+  match fwOf fw, mtOf mt with
+  | some fw, some mt =>
+    pure (match sampleCount fw mt ({ h := 0, w := 0, c := 0, insts := ii } : Frame Rat) with
+      | some n => s!"ok {n}"
+      | none => "raise")
+  | _, _ => failure
+
 def handle (line : String) : String :=
   match tokens line with
   | "sample" :: rest => (runP sampleLine rest).getD "bad-op"
   | "dp" :: rest => (runP dpLine rest).getD "bad-op"
+  | "count" :: rest => (runP countLine rest).getD "bad-op"
   | _ => "bad-op"
 
 def main : IO Unit := mainLoop' handle
